@@ -30,7 +30,8 @@ def run(ctx):
                 "LD_DEBUG=bindings: every binding the loader makes from libcore to another object must be a function declared in "
                 "lltdPort.h (or memcpy/memset/memmove/memcmp/compiler runtime); event logs must be identical across the matrix; a "
                 "silent arena-backed port runs the core between two marker system calls under strace and nothing may appear in "
-                "between. distinct_nontrivial = distinct (configuration, bound symbol) pairs observed plus bracketed runs")
+                "between; the same drive linked statically into a port without any C runtime (own _start, raw system calls, nobody walks "
+                ".init_array) must report the same frames as the hosted run. distinct_nontrivial = distinct (configuration, bound symbol) pairs observed plus bracketed runs")
     rep.assumptions = ["the core is built without LLTD_VERIF_HOOKS here: the property is about the unhooked core",
                        "the lexical clause (no OS macro/header) is the repository's own lint script, run from the working tree and "
                        "reported separately: that part is not runtime monitoring (auxiliary)",
@@ -54,6 +55,8 @@ def run(ctx):
         # with well-formed lists only (its over-long station walk is C01's recorded finding)
         s.lines = [("F" + ln[1:]) if ln.startswith("E ") else ln for ln in s.lines if not ln.startswith("X ")]
 
+    bares = {}
+
     def build_cfg(cfg):
         cc, opt, mode = cfg
         name = "%s%s-%s" % (cc, opt, mode)
@@ -74,6 +77,7 @@ def run(ctx):
             if r2.returncode == 0:
                 objs.append(o)
         und = None
+        bare = None
         if len(objs) == len(core):
             rel = os.path.join(d, "%s-core.o" % name)
             if sh(["ld", "-r", "-o", rel] + objs).returncode == 0:
@@ -81,9 +85,20 @@ def run(ctx):
                 tls = [ln.split()[-1] for ln in sh(["readelf", "-sW", rel]).stdout.split("\n") if " TLS " in ln]
                 if tls:
                     und |= set("thread-local-object:" + t for t in tls)
+                # sections that only a C runtime's start-up code (or a loader) would act on
+                for sec in re.findall(r"\s(\.(?:preinit_array|init_array|fini_array|ctors|dtors))\S*\s", sh(["readelf", "-SW", rel]).stdout):
+                    und.add("startup-section:" + sec)
+                # the same core in a port without any C runtime: own _start, raw system calls, nobody runs constructors
+                if os.uname().machine == "x86_64":
+                    bare = os.path.join(d, "bare-%s" % name)
+                    rb = sh(["gcc", "-O1", "-w", "-fno-builtin", "-fno-tree-loop-distribute-patterns", "-fno-stack-protector", "-ffreestanding",
+                             "-nostdlib", "-nostartfiles", "-static", "-DVH_BARE", inc, "-o", bare, os.path.join(H.HARN, "vh_bracket.c"), rel])
+                    if rb.returncode != 0:
+                        bare = "link failed: " + rb.stdout[-600:]
         exe = os.path.join(d, "vh-%s" % name)
         hs = [os.path.join(H.HARN, x) for x in ("vh_frames.c", "vh_flow.c", "vport.c")]
         r = sh(["gcc", "-O1", "-g", "-w", "-rdynamic", inc, "-I" + H.HARN, "-o", exe] + hs + [lib, "-Wl,-rpath," + d])
+        bares[name] = bare
         if r.returncode != 0:
             return cfg, lib, None, und, "harness link against libcore failed:\n" + r.stdout[-1500:]
         br = os.path.join(d, "br-%s" % name)
@@ -101,6 +116,7 @@ def run(ctx):
             f.write(s.text())
     logs = {}
     sent_ref = None
+    bare_out = {}
 
     def run_cfg(b):
         cfg, lib, exe, und, err = b
@@ -149,6 +165,15 @@ def run(ctx):
                     continue
                 if state == 1:
                     inside.append(ln.strip())
+        bare = bares.get(name)
+        if bare and os.path.isfile(bare):
+            try:
+                bp = subprocess.run([bare], stdout=subprocess.PIPE, stderr=subprocess.PIPE, text=True, timeout=60)
+                bare_out[name] = (bp.returncode, bp.stdout.strip())
+            except subprocess.TimeoutExpired:
+                bare_out[name] = ("timeout", "")
+        elif bare:
+            bare_out[name] = ("nolink", bare)
         return cfg, binds, (p.returncode, "".join(norm)), (sp.returncode, sp.stdout.strip(), state, inside), und
 
     with ThreadPoolExecutor(max_workers=H.NCPU) as ex:
@@ -181,7 +206,11 @@ def run(ctx):
         # auxiliary static cross-check
         if und is not None:
             for sym in und:
-                if not (sym in allowed or sym in MEMFUNCS or COMPILER_RT.match(sym)):
+                if sym.startswith("startup-section:"):
+                    rep.violation("C20:core-relies-on-runtime-startup:%s" % sym.split(":")[1],
+                                  "configuration %s: the relocatably linked core carries a %s section - code that only runs if a C runtime "
+                                  "or a loader calls it before the first frame" % (name, sym.split(":")[1]))
+                elif not (sym in allowed or sym in MEMFUNCS or COMPILER_RT.match(sym)):
                     rep.violation("C20:undefined-symbol-outside-port-api:%s" % sym,
                                   "configuration %s: nm -u of the relocatably linked core lists `%s'" % (name, sym))
         # event logs identical across the matrix
@@ -209,6 +238,19 @@ def run(ctx):
                     sent_ref = out
                 elif out != sent_ref:
                     rep.violation("C20:behaviour-depends-on-compiler-setting", "bracket run of %s reports %r, others %r" % (name, out, sent_ref))
+                # the same drive in a port without a C runtime must behave identically
+                bo = bare_out.get(name)
+                if bo is None:
+                    pass
+                elif bo[0] in ("nolink", "timeout") or bo[0] != 0 or not bo[1].startswith("SENT "):
+                    rep.inconclusive.append("configuration %s: run without a C runtime: %r" % (name, bo))
+                else:
+                    rep.count("bare_runs")
+                    rep.nontrivial(("bare", name))
+                    if bo[1] != out:
+                        rep.violation("C20:behaviour-depends-on-a-c-runtime",
+                                      "configuration %s: linked into a port without C runtime (own _start, no constructors run, raw system "
+                                      "calls) the core reports %r, in the hosted harness %r" % (name, bo[1], out))
                 if inside:
                     rep.violation("C20:system-call-from-inside-the-core:%s" % inside[0].split("(")[0].split(" ")[-1],
                                   "configuration %s: system calls between the BEGIN and END markers:\n%s" % (name, "\n".join(inside[:10])))
@@ -219,5 +261,7 @@ def run(ctx):
         rep.violation("C20:lint:os-specific-macro-or-header-in-core", "scripts/lint_core_no_os_conditionals.sh failed:\n" + r.stdout[-1500:])
     rep.need("corpus_runs", rep.counters.get("corpus_runs", 0), 12)
     rep.need("bracket_runs", rep.counters.get("bracket_runs", 0), 12)
+    if os.uname().machine == "x86_64":
+        rep.need("bare_runs", rep.counters.get("bare_runs", 0), 12)
     rep.sample(dict(configurations=["%s%s-%s" % c for c in cfgs], scenarios=len(scns), bracket_output=sent_ref))
     rep.exhaustive = False
